@@ -62,7 +62,7 @@ func (v *vView) chansAsIface() map[string]interface{} {
 }
 
 var (
-	vNicks    = []string{"alice", "bob", "carol", "dave", "b[ob]", "eve"}
+	vNicks    = []string{"alice", "bob", "carol", "dave", "b[ob]", "eve", "fr\\ed", "FR|ED"}
 	vBadNicks = []string{"1bad", "", "a b", "#chan", "toolongnickname-toolongnickname-x", "nickserv", "FooServ"}
 	vChans    = []string{"#a", "#b", "#c", "#a,#b", "#Chan"}
 	vBadChans = []string{"&x", "#", "a", "#a:b", ""}
@@ -82,7 +82,8 @@ func variant(r *rand.Rand, n string) string {
 			return strings.ToUpper(n[:1]) + n[1:]
 		}
 	case 2:
-		return strings.NewReplacer("[", "{", "]", "}", "{", "[", "}", "]").Replace(n)
+		// the scandinavian pairs []\ ~ {}|, each on its own (a nickname need not contain a bracket)
+		return strings.NewReplacer("[", "{", "]", "}", "{", "[", "}", "]", "\\", "|", "|", "\\").Replace(n)
 	}
 	return n
 }
@@ -636,7 +637,7 @@ func (g *vGen) warmup() []*vEntry {
 	for k := 0; k < n; k++ {
 		es = append(es, &vEntry{T: "create", Data: fmt.Sprintf("auth%04d-secret", base+int64(k)+1), Sup: true, Conf: true})
 	}
-	nicks := []string{"alice", "bob", "carol", "dave", "b[ob]"}
+	nicks := []string{"alice", "bob", "carol", "dave", "b[ob]", "fr\\ed"}
 	r.Shuffle(len(nicks), func(a, b int) { nicks[a], nicks[b] = nicks[b], nicks[a] })
 	withLink := r.Intn(2) == 0
 	for k := 0; k < n; k++ {
